@@ -194,12 +194,15 @@ def _capacity(ctx: Ctx, c: Collector) -> None:
             r = rem[0]
             own = guard_terms(r.guards[len(e.guards):])
             want = ("cmp", "<=", mc, ("idx", cnt_tab, dest))
+            # the freshly stored count may be tested through the table or through the value just stored
+            stored = [x.term[2] for x in counts if x.guards == e.guards]
+            own = [want if (x[0] == "cmp" and x[1] == "<=" and x[2] == mc and x[3] in stored) else x for x in own]
             if own != [want]:
                 if want in own:
                     extra = [x for x in own if x != want]
                     pr.append("the removal of a full destination is additionally conditional on " + " and ".join(T.show(x)[:60] for x in extra)
                               + ": after some connections the capacity test is skipped")
-                elif ("cmp", "<", mc, ("idx", cnt_tab, dest)) in own:
+                elif ("cmp", "<", mc, ("idx", cnt_tab, dest)) in own or any(x[0] == "cmp" and x[1] == "<" and x[2] == mc and x[3] in stored for x in own):
                     pr.append("a destination is removed only after it exceeded max_connects (> instead of >=)")
                 else:
                     pr.append(f"removal test is {[T.show(x)[:60] for x in own]} instead of count >= max_connects")
@@ -222,11 +225,20 @@ def _front(ctx: Ctx, c: Collector) -> None:
     if not ev or not rn:
         pr.append("one of the two helpers is never called")
     else:
-        if guard_terms(ev[0].guards[-1:]) != [T.var("evenly")] or guard_terms(rn[0].guards[-1:]) != [("not", T.var("evenly"))]:
+        from .. import boolfn
+        flag = T.var("evenly")
+        try:
+            sel_ok = boolfn.guards_hold_leaves(ev[0].guards[-1:], {flag: True}) and not boolfn.guards_hold_leaves(ev[0].guards[-1:], {flag: False}) \
+                and boolfn.guards_hold_leaves(rn[0].guards[-1:], {flag: False}) and not boolfn.guards_hold_leaves(rn[0].guards[-1:], {flag: True})
+            rv = folded_return(s)
+            ret_ok = rv is not None and boolfn.resolve_phi(rv, {flag: True}) == ev[0].term and boolfn.resolve_phi(rv, {flag: False}) == rn[0].term
+        except boolfn.NotBoolean:
+            sel_ok = ret_ok = False
+        if not sel_ok:
             pr.append("the helper is not selected by the evenly flag")
         if dict(rn[0].term[3]).get("max_connects") != T.var("max_connects"):
             pr.append("max_connects is not passed to the random helper")
-        if len(rets) != 1 or rets[0].term != ("phi", T.var("evenly"), ev[0].term, rn[0].term):
+        if not ret_ok:
             pr.append("the helper's result is not returned on both branches")
         # the caller's destination list is copied before it is shuffled / shrunk
         dest_p = T.var(fi.params[2])
